@@ -166,15 +166,17 @@ def run_lean(mode, lines, timeout=3000):
 # ----------------------------------------------------------------------------- known findings
 
 def load_findings(pid):
-    p = os.path.join(VERIF, "known_findings.jsonl")
+    """open findings of a property: `open: property=<id> id=<fid> {json}` lines of known_findings.txt"""
+    p = os.path.join(VERIF, "known_findings.txt")
     res = []
     if os.path.exists(p):
         for line in open(p):
             line = line.strip()
-            if line and not line.startswith("#"):
-                d = json.loads(line)
-                if d.get("property") == pid:
-                    res.append(d)
+            m = re.match(r"open: property=(\S+) id=(\S+) (\{.*\})$", line)
+            if m and m.group(1) == pid:
+                d = json.loads(m.group(3))
+                d.update({"property": pid, "id": m.group(2), "status": "open"})
+                res.append(d)
     return res
 
 
